@@ -10,6 +10,9 @@ from .bdag import BDag, TRUE, FALSE, RandomEvaluator
 from .solver import make_solver
 
 
+import os as _os, sys
+_TRACE = _os.environ.get('SYMLIFT_TRACE')
+
 class LiftError(Exception):
     pass
 
@@ -282,6 +285,11 @@ class Engine:
         """record that an error happens under lit (already conjoined with guard)"""
         if lit == FALSE or self.known_false(lit):
             return
+        if _TRACE and _TRACE in str(msg):       # development aid: SYMLIFT_TRACE=<substring of the message>
+            import traceback
+            traceback.print_stack(limit=25)
+            if sys.exc_info()[0] is not None:
+                traceback.print_exc()
         lit = self.dag.and_(lit, self.dead ^ 1)
         if lit == FALSE:
             return
@@ -1826,7 +1834,16 @@ def _contains(container, x):
         return container.contains(x)
     if isinstance(container, U):
         d = E.dag
-        return d.any_(d.and_(g, _contains(v, x)) for g, v in container.alts)
+        out = []
+        for g, v in container.alts:
+            # an alternative that is no container (e.g. None from a path that does not return) fails under its own guard only
+            if g == FALSE or E.known_false(d.and_(E.g(), g)):
+                continue
+            r = FALSE
+            with _Guarded(g):
+                r = _contains(v, x)
+            out.append(d.and_(g, r))
+        return d.any_(out)
     if is_sym(x) or (isinstance(x, tuple) and any(is_sym(c) for c in x)):
         d = E.dag
         if isinstance(container, str):
@@ -1877,6 +1894,33 @@ def wrapb(r):
     return r
 
 
+_PROMOTED = {}
+
+
+def _promote_global(obj):
+    """a native dict / set bound to a module-level name of the lifted package (a cache such as `_memo = {}`) that is written
+    under a symbolic guard or with a symbolic key: rebind every module global that refers to it to an engine container with
+    the same content. Lifted code reads module globals by name on every access, so later reads see the engine container."""
+    if id(obj) in _PROMOTED:
+        return _PROMOTED[id(obj)][1]
+    if type(obj) not in (dict, set):
+        return None
+    hits = []
+    for name, mod in list(sys.modules.items()):
+        if not (name == 'gambatools' or name.startswith('gambatools.')) or mod is None:
+            continue
+        for k, v in list(vars(mod).items()):
+            if v is obj:
+                hits.append((mod, k))
+    if not hits:
+        return None
+    new = wrap(obj)
+    for mod, k in hits:
+        setattr(mod, k, new)
+    _PROMOTED[id(obj)] = (obj, new)
+    return new
+
+
 def GETITEM(obj, key):
     if isinstance(obj, (GDict, GList)):
         return obj.getitem(key)
@@ -1901,6 +1945,9 @@ def SETITEM(obj, key, value):
                     SETITEM(v, key, value)
         return
     if E.g() != TRUE or deep_sym(key):
+        promoted = _promote_global(obj)
+        if promoted is not None:
+            return promoted.setitem(key, value)
         raise Unsupported('setitem on native %r under guard / with a symbolic key' % (type(obj),))
     obj[key] = value        # a native container may hold engine values as long as the store is unconditional
 
